@@ -9,7 +9,7 @@
 (* TLC enumerates every subset of pre-existing outputs x clobber on/off; the same configurations   *)
 (* are executed by the real CLI and judged by ClobberTrace.tla.                                    *)
 (***************************************************************************************************)
-EXTENDS Naturals, Integers, FiniteSets, Sequences, TLC, Json
+EXTENDS Naturals, Integers, FiniteSets, Sequences, TLC
 CONSTANTS N, MaxPre      \* number of output files of the run; largest subset size explored (N = all)
 VARIABLES pre, clobber, fs, k, exit, named
 vars == <<pre, clobber, fs, k, exit, named>>
@@ -30,6 +30,5 @@ NoClobberSafe == (exit # -1 /\ ~clobber /\ pre # {}) => exit = 1 /\ named \in pr
 ClobberRewrites == (exit # -1 /\ clobber) => exit = 0 /\ \A f \in 1..N : fs[f] = "new"
 FreshRunSucceeds == (exit # -1 /\ pre = {}) => exit = 0 /\ \A f \in 1..N : fs[f] = "new"
 Terminates == <>(exit # -1)
-\* scenario export: the initial states
-Emit == (k = 1 /\ exit = -1) => PrintT(ToJson([pre |-> pre, clobber |-> IF clobber THEN 1 ELSE 0]))
+\* (scenario export: ClobberScen.tla; unbounded proof of NoClobberSafe for every N: proofs/ClobberProof.tla)
 ====
